@@ -94,6 +94,13 @@ def make_traj(md, rng, n_frames, n_atoms, force_ortho=None):
 
 def brute_min(box, r, R=3):
     """float64 brute force over the lattice points within R cells of the one nearest to -r (box rows a,b,c)"""
+    # the same lattice in a reduced basis (c -= b*round(cy/by), c -= a*round(cx/ax), b -= a*round(bx/ax) for lower-triangular cells), so that the
+    # minimum lies within R cells of the nearest lattice point even for strongly skewed input forms
+    box = np.array(box, dtype=np.float64)
+    if box[0, 1] == 0 and box[0, 2] == 0 and box[1, 2] == 0 and box[0, 0] != 0 and box[1, 1] != 0:
+        box[2] -= box[1] * np.rint(box[2, 1] / box[1, 1])
+        box[2] -= box[0] * np.rint(box[2, 0] / box[0, 0])
+        box[1] -= box[0] * np.rint(box[1, 0] / box[0, 0])
     base = -np.rint(np.linalg.solve(box.T, r))
     rng_ = np.arange(-R, R + 1)
     I, J, K = np.meshgrid(rng_ + base[0], rng_ + base[1], rng_ + base[2], indexing="ij")
@@ -128,7 +135,7 @@ def run(ctx):
     reqs, meta = [], []
     for ti in range(n_traj):
         force = [True, False, None][ti % 3]
-        t, kinds = make_traj(md, rng, n_frames=3, n_atoms=6, force_ortho=force)
+        t, kinds = make_traj(md, rng, n_frames=rng.choice([3, 4, 5]), n_atoms=6, force_ortho=force)
         pairs = np.array([(0, 1), (1, 2), (2, 3), (3, 4), (4, 5), (5, 0), (0, 1), (2, 2), (1, 4)])
         box = t.unitcell_vectors          # what the kernels are given (float32)
         orth = bool(np.allclose(t.unitcell_angles, 90))
@@ -155,8 +162,11 @@ def run(ctx):
         if not np.allclose(md.compute_distances(t2, pairs, periodic=True), np.linalg.norm(plain, axis=-1), rtol=2e-6, atol=1e-6):
             viol("nocell", "compute_distances(periodic=True) on a trajectory without cell is not the plain Euclidean distance", dict(traj=ti))
         # time-pair variant against the single-frame kernels
-        if ti % 3 == 0 and not orth:
-            times = np.array([(0, 0), (1, 1), (2, 2), (0, 2), (2, 1)])
+        if ti % 3 == 0 and t.n_frames >= 3:
+            nfr_ = t.n_frames
+            # the diagonal, then a fixed-lag chain (0,1),(1,2),(2,3)..., then random pairs with repeats and reversals
+            times = [(0, 0), (1, 1), (2, 2)] + [(f, f + 1) for f in range(nfr_ - 1)] + [(rng.randrange(nfr_), rng.randrange(nfr_)) for _ in range(4)] + [(2, 1), (0, 2)]
+            times = np.array(times)
             dt = md.compute_distances_t(t, pairs, times, periodic=True, opt=True)
             dr = md.compute_distances_t(t, pairs, times, periodic=True, opt=False)
             ctx.case(None, None); ctx.count("compute_distances_t calls")
